@@ -673,6 +673,10 @@ def run(F, R, config=None):
             c12.r2(F, R, w, c12.mailbox(F, w), rid="C10-R6")
     else:
         R.not_evaluated.append("C10-R2/R3/R5: feature `parallel` is off in this configuration (no parallel sampler compiled)")
+    # what a backend stores must not depend on when flush / inspect were called: nothing is written around a buffered writer (C14-R9 analysis)
+    from . import c14
+    K.borrow_rule(R, lambda sub: c14.r9(F, sub, P), "C10-R8", "the stored trace does not depend on the timing of flush()/inspect(): no backend hands bytes to the file "
+                  "around its BufWriter, which would write them a second time at the next flush (C14-R9 analysis)", only_rules={"C14-R9"})
     R.assume("rand: seed_from_u64 / set_stream are pure; ChaCha8 streams with distinct ids are independent")
     R.assume("Model::math / Model::init_position / Math::* are supplied by the user and are deterministic functions of their arguments and the RNG they are handed")
     R.assume("floating-point kernels are deterministic on one machine (no rule can decide hardware behaviour)")
